@@ -111,10 +111,13 @@ type Pipe struct {
 	// EndTime is when the writer closed/reset this direction (-1 if open).
 	EndTime time.Duration
 	EndStep int
+	// EndSeenTime/Step: when a Read of the other side first returned EOF/RST (-1 before).
+	EndSeenTime time.Duration
+	EndSeenStep int
 }
 
 func newPipe(capacity int) *Pipe {
-	return &Pipe{capacity: capacity, notify: make(chan struct{}), EndTime: -1}
+	return &Pipe{capacity: capacity, notify: make(chan struct{}), EndTime: -1, EndSeenTime: -1, EndSeenStep: -1}
 }
 
 func (p *Pipe) broadcastLocked() {
@@ -175,6 +178,7 @@ type TCPConn struct {
 	ClosedAt          time.Duration // local Close time (-1 if open)
 	ClosedStep        int
 	WritesAfterClose  int
+	LateWritesAfterClose int // write attempts at a later simulated instant than the local Close
 	ReadsAfterClose   int
 	lastWriteAfterClose time.Duration
 }
@@ -314,6 +318,10 @@ func (c *TCPConn) Read(b []byte) (int, error) {
 		}
 		if p.ended && p.endVis && p.readOff >= p.endOff {
 			rst := p.endRST
+			if p.EndSeenStep < 0 {
+				p.EndSeenTime, p.EndSeenStep = simrt.Elapsed(), simrt.Step()
+				defer simrt.Event("conn#%d: %s read end of stream", c.ID, map[bool]string{true: "client", false: "server"}[c.IsClient])
+			}
 			p.mu.Unlock()
 			if rst {
 				return 0, opErr("read", c, os.NewSyscallError("read", syscall.ECONNRESET))
@@ -404,9 +412,13 @@ func (c *TCPConn) Write(b []byte) (int, error) {
 		if closed {
 			c.WritesAfterClose++
 			c.lastWriteAfterClose = simrt.Elapsed()
+			if simrt.Elapsed() > c.ClosedAt {
+				c.LateWritesAfterClose++
+			}
 		}
 		c.mu.Unlock()
 		if closed {
+			simrt.Event("conn#%d: write after local close", c.ID)
 			c.recordWrite(total, "closed")
 			return total, opErr("write", c, ErrClosed)
 		}
@@ -479,6 +491,7 @@ func (c *TCPConn) Close() error {
 	c.ClosedAt = simrt.Elapsed()
 	c.ClosedStep = simrt.Step()
 	c.mu.Unlock()
+	simrt.Event("conn#%d closed by %s", c.ID, map[bool]string{true: "client", false: "server"}[c.IsClient])
 	d := c.drawDelay()
 	// unread data pending on our side => the kernel answers with RST
 	c.rd.mu.Lock()
@@ -760,6 +773,7 @@ func DialTimeout(network, address string, d time.Duration) (Conn, error) {
 	l.broadcastLocked()
 	l.mu.Unlock()
 	logDial("ok", pair.ID)
+	simrt.Event("dial %s -> conn#%d", address, pair.ID)
 	return cc, nil
 }
 
